@@ -3,15 +3,17 @@ import SaModel.Lemmas.C01R2
 `build_builder` establishes `Shape` for the data types R2 covers.
 
 Two decidable predicates on the schema (both TRUE of every type `build_builder` refuses — RunEndEncoded, Interval, a
-dictionary whose key type is not an integer type —, so neither excludes anything by refusing it: `newDT_accepted`):
+dictionary whose key type is not an integer type —, so neither excludes anything by refusing it: `newDT_refusedHead`, `covered_refusedHead`):
 
-* `coveredW` (the hypothesis of R2 / `C01_build_decode'`): everything `build_builder` accepts except
+* `coveredW` (establishes `Shape`, the hypothesis of R2: `newDT_shapeW`, `newRoot_shapeW`; the schema hypothesis of R3'
+  `Props.C01.runRows_interp'` and of `Props.C05.C05_toMarrow_undefined_rejected`): everything `build_builder` accepts except
   `Dictionary(integer key, V)` with `V` a type whose builder ACCEPTS strings without being a Utf8 / LargeUtf8 builder
   (`dictValOpen`: Utf8View, the parsed kinds Date32 / Date64 / Time32 / Time64 / Timestamp / Duration / Decimal128, a
   nested Dictionary).  For every OTHER `V` (Null, Boolean, integers, floats, binary types, lists, maps, structs, unions)
   the value builder refuses `serialize_str`, every non-null push into the dictionary fails and the theorems hold there.
-* `covered` ⊆ `coveredW` (the hypothesis of the completeness theorems and of the physical layer, where `into_array` must
-  be able to append the placeholder string): dictionaries with integer keys have Utf8 / LargeUtf8 values.
+* `covered` ⊆ `coveredW` (the hypothesis of `Props.C01.C01_build_decode'`, of the completeness theorems and of the
+  physical layer, where `into_array` must be able to append the placeholder string): dictionaries with integer keys have
+  Utf8 / LargeUtf8 values.
 -/
 namespace SaModel.Build
 open SaModel SaModel.Spec
@@ -21,7 +23,7 @@ def isStrDT : DataType → Bool
   | .utf8 | .largeUtf8 => true
   | _ => false
 
-/-- value types of a dictionary whose builder accepts `serialize_str` but which R2 does not cover (yet): the row a
+/-- value types of a dictionary whose builder accepts `serialize_str` but which R2 does not cover: the row a
 string denotes is the parsed value (or the view string), and the link "values decoded = index entries interpreted at
 V" is not part of the state invariant -/
 def dictValOpen : DataType → Bool
